@@ -155,6 +155,11 @@ def run_clauses(tl, free_fracs, what):
         if not near:
             need(gd == gw, f"beat_at({T!r}) differs between default ({gd}) and WARP ({gw}) away from every event time{ctx}")
 
+    # answers must not depend on the order of the queries: ask everything again in reverse order
+    for T, d0, w0 in reversed(list(asked)[::4]):
+        evals += 1
+        need(F(eng.beat_at(T)) == d0 and F(eng.beat_at(T, WARP)) == w0, f"beat_at({T!r}) changes when asked again in a different order{ctx}")
+
     # (5) monotone
     asked.sort(key=lambda t: t[0])
     for (t0, d0, w0), (t1, d1, w1) in zip(asked, asked[1:]):
